@@ -105,6 +105,7 @@ pub struct Log {
 }
 pub struct Cid { pub row: u16, pub col: u16, pub height: u64 }
 pub struct CidVec { pub v: Vec<Cid> }
+pub struct SamplingMetadata { pub cids: CidVec }
 
 // the header store as the daser sees it (A-store: contracts assumed at the trait boundary, proved for the in-memory
 // back end in the store unit; A-await: no other task changes it between the awaits of ONE call)
@@ -128,6 +129,18 @@ impl Store {
         ensures
             r.is_ok() ==> final(log)@ == (Log { recorded: old(log)@.recorded.insert(h as int, cid_pairs(cids, h)), ..old(log)@ }),
             r.is_err() ==> final(log)@ == old(log)@,
+    { unimplemented!() }
+    // further Store queries (any answer consistent with the sets; not needed by the proofs, present so that a change that
+    // starts using them is decided rather than left undecided)
+    #[verifier::external_body]
+    pub async fn get_sampling_metadata(&self, h: u64) -> (r: Result<Option<SamplingMetadata>, StoreError>)
+        ensures r matches Ok(Some(_)) ==> self.stored@.contains(h as int)
+    { unimplemented!() }
+    #[verifier::external_body]
+    pub async fn has_at(&self, h: u64) -> (r: bool) ensures r == self.stored@.contains(h as int) { unimplemented!() }
+    #[verifier::external_body]
+    pub async fn head_height(&self) -> (r: Result<u64, StoreError>)
+        ensures r.is_ok() ==> self.stored@.contains(r.unwrap() as int) && forall|x: int| self.stored@.contains(x) ==> x <= r.unwrap()
     { unimplemented!() }
     #[verifier::external_body]
     pub async fn mark_as_sampled(&self, h: u64, log: &mut Ghost<Log>) -> (r: Result<(), StoreError>)
